@@ -14,6 +14,8 @@ for f in $(ls $D/*.diff | sort); do
     out=$(cd /verif && timeout -k 5 900 ./check $p quick 2>&1); rc=$?
     if echo "$out" | grep "^VIOLATION" | grep -qv "no-failing-input-found"; then
       verdict="caught"; by="$p $(echo "$out" | grep -A1 -m1 '^VIOLATION' | tail -1 | cut -c1-120)"; break
+    elif [ $rc -eq 124 ] || [ $rc -eq 137 ]; then
+      verdict="timeout"; by="$p (check did not finish in 15 min: the mutant makes runs explode)"; break
     elif echo "$out" | grep -q "^VIOLATION"; then
       tie="$tie $p"
     fi
